@@ -140,14 +140,19 @@ def setup_recursive_safe_function(
             updated_extras['locals'] = _locals = {'cls': cls} if add_cls else {}
             updated_extras['fn_gen'] = new_fn_gen = FunctionBuilder()
 
+            # The generated function accepts a single parameter `v1`, so
+            # within the function body we need to refer to the value as `v1`,
+            # rather than by the caller's variable or index, e.g. `v2[0]`.
+            fn_tp = tp.replace(i=1, prefix='v', index=None)
+
             # Apply the decorated function logic
             if fn_name:
                 # Assume `with fn_gen.function(...)` is already handled
-                func(_cls, tp, updated_extras) if _cls else func(tp, updated_extras)
+                func(_cls, fn_tp, updated_extras) if _cls else func(fn_tp, updated_extras)
             else:
                 # Apply `with fn_gen.function(...)` explicitly
                 with new_fn_gen.function(_fn_name, ['v1'], MISSING, _locals):
-                    func(_cls, tp, updated_extras) if _cls else func(tp, updated_extras)
+                    func(_cls, fn_tp, updated_extras) if _cls else func(fn_tp, updated_extras)
 
             # Merge the new FunctionBuilder into the main one
             main_fn_gen |= new_fn_gen
